@@ -165,6 +165,17 @@ def gen_pairs(rng, schema, sep):
         pairs.append([key, rng.choice(fl.TEXTS)])
     if pairs and rng.random() < 0.2:
         pairs.append(list(rng.choice(pairs)))
+    if rng.random() < 0.25:
+        # keys spelled with the name of the (used) PARENT class some classes are derived from
+        # (flatlib.build_class): they address nothing in the derived schema
+        for _ in range(rng.choice([1, 1, 2])):
+            tail = rng.choice(["0", "1", "0" + sep + "zz", "zzf", "0" + sep + rng.choice(names or ["s"])])
+            key = "zzparent" + rng.choice([sep, "_"]) + tail
+            if base and rng.random() < 0.5:
+                b = rng.choice(base)
+                cut = b.rfind(sep)
+                key = (b[:cut + len(sep)] if cut >= 0 else "") + key
+            pairs.insert(rng.randint(0, len(pairs)), [key, rng.choice(["x", "evil", ""])])
     return pairs
 
 
